@@ -273,12 +273,33 @@ func renderValue(rt *rapid.T, f, v int) string {
 	return fmt.Sprint(v)
 }
 
-func genStep(rt *rapid.T, span int) int {
+// hugeSteps are step values around the widths of the machine integers a parser may keep a step in. Every one of
+// them exceeds any field's range, so as a step each selects the first value of its range only (a parser may also
+// refuse the ones it cannot represent; a refusal is recorded, not judged).
+var hugeSteps = []string{
+	"2147483647", "2147483648", "4294967295", "4294967296", "4294967297",
+	"9223372036854775807", "9223372036854775808", "18446744073709551615", "18446744073709551616",
+	"10000000000000000000", "99999999999999999999", "340282366920938463463374607431768211456",
+}
+
+// genStep draws the step of a term whose range starts at value start and covers span values.
+func genStep(rt *rapid.T, start, span int) string {
 	// span = number of values the step runs over; steps beyond it select only the first value
-	if rapid.IntRange(0, 9).Draw(rt, "bigStep") == 0 {
-		return rapid.IntRange(span+1, 2*span+60).Draw(rt, "step")
+	switch k := rapid.IntRange(0, 39).Draw(rt, "bigStep"); {
+	case k == 0:
+		return rapid.SampledFrom(hugeSteps).Draw(rt, "hugeStep")
+	case k == 1:
+		// 2^64 - d and 2^32 - d for small d: start + step comes back into the field's range in a 64- or
+		// 32-bit unsigned sum
+		d := uint64(rapid.IntRange(1, start+span).Draw(rt, "wrapBy"))
+		if rapid.Bool().Draw(rt, "wrap32") {
+			return fmt.Sprint(uint64(1)<<32 - d)
+		}
+		return fmt.Sprint(^uint64(0) - d + 1)
+	case k < 6:
+		return fmt.Sprint(rapid.IntRange(span+1, 2*span+60).Draw(rt, "step"))
 	}
-	return rapid.IntRange(1, span+1).Draw(rt, "step")
+	return fmt.Sprint(rapid.IntRange(1, span+1).Draw(rt, "step"))
 }
 
 const (
@@ -309,14 +330,14 @@ func genTerm(rt *rapid.T, f int, allowStar bool) string {
 		b := rapid.IntRange(a, hi).Draw(rt, "m")
 		return renderValue(rt, f, a) + "-" + renderValue(rt, f, b)
 	case kStarStep:
-		return fmt.Sprintf("%s/%d", star, genStep(rt, hi-lo+1))
+		return fmt.Sprintf("%s/%s", star, genStep(rt, lo, hi-lo+1))
 	case kSingleStep:
 		a := rapid.IntRange(lo, hi).Draw(rt, "n")
-		return fmt.Sprintf("%s/%d", renderValue(rt, f, a), genStep(rt, hi-a+1))
+		return fmt.Sprintf("%s/%s", renderValue(rt, f, a), genStep(rt, a, hi-a+1))
 	case kRangeStep:
 		a := rapid.IntRange(lo, hi).Draw(rt, "n")
 		b := rapid.IntRange(a, hi).Draw(rt, "m")
-		return fmt.Sprintf("%s-%s/%d", renderValue(rt, f, a), renderValue(rt, f, b), genStep(rt, b-a+1))
+		return fmt.Sprintf("%s-%s/%s", renderValue(rt, f, a), renderValue(rt, f, b), genStep(rt, a, b-a+1))
 	}
 	return star
 }
